@@ -26,8 +26,8 @@ from collections import Counter
 from pathlib import Path
 
 ROOT = Path(__file__).resolve().parent.parent
-EVIDENCE_DIR = ROOT / "evidence"
-REPLAY_DIR = ROOT / "replays"
+EVIDENCE_DIR = Path(os.environ.get("VERIF_EVIDENCE_DIR") or ROOT / "evidence")
+REPLAY_DIR = Path(os.environ.get("VERIF_REPLAY_DIR") or ROOT / "replays")
 KNOWN_FILE = ROOT / "KNOWN_FINDINGS.json"
 PY = "/venv/bin/python"
 N_WORKERS = int(os.environ.get("VERIF_WORKERS", "16"))
@@ -180,7 +180,9 @@ def run_check(pid: str, tier: str, seed: int) -> int:
     env.setdefault("PYTHONHASHSEED", "0")
     env["PYTHONDONTWRITEBYTECODE"] = "1"
     env["BELLOWS_VERIF"] = "1"
-    env["PYTHONPATH"] = f"{ROOT}:{ROOT / '.deps'}" + (
+    env["PYTHONPATH"] = (
+        (env["VERIF_BELLOWS_PATH"] + ":") if env.get("VERIF_BELLOWS_PATH") else ""
+    ) + f"{ROOT}:{ROOT / '.deps'}" + (
         ":" + env["PYTHONPATH"] if env.get("PYTHONPATH") else ""
     )
     timeout_s = getattr(mod, "SHARD_TIMEOUT", {}).get(tier, 900)
@@ -257,6 +259,12 @@ def run_check(pid: str, tier: str, seed: int) -> int:
         vcount += r["violation_count"]
         notes.extend(r["notes"])
 
+    if hasattr(mod, "post_merge"):
+        try:
+            mod.post_merge(reach, tier, events)
+        except TypeError:
+            mod.post_merge(reach, tier)
+
     # -- classify violations against the committed known-findings file
     known = [k for k in load_known() if k["property"] == pid and k["status"] == "known"]
     known_hit: dict[str, int] = {}
@@ -308,7 +316,7 @@ def run_check(pid: str, tier: str, seed: int) -> int:
     if getattr(mod, "EXHAUSTIVE", {}).get(tier):
         evidence["coverage"]["exhaustive"] = True
         evidence["coverage"]["exhaustive_over"] = mod.EXHAUSTIVE[tier]
-    EVIDENCE_DIR.mkdir(exist_ok=True)
+    EVIDENCE_DIR.mkdir(parents=True, exist_ok=True)
     ev_json = jsonable(evidence)
     err = _validate_evidence(ev_json) if not inconclusive else None
     (EVIDENCE_DIR / f"{pid}.json").write_text(json.dumps(ev_json, indent=1) + "\n")
@@ -330,7 +338,7 @@ def run_check(pid: str, tier: str, seed: int) -> int:
         print(f"KNOWN-FINDING: property={pid} {kk['what']} [key={key}, hit {n}x]")
     rc = 0
     if new_violations:
-        REPLAY_DIR.mkdir(exist_ok=True)
+        REPLAY_DIR.mkdir(parents=True, exist_ok=True)
         seen_keys = set()
         for v in new_violations:
             if v["key"] in seen_keys:
